@@ -276,6 +276,10 @@ def xIf (r : Rec) (node : PTree) : IxM (Option Ty) := do
   let some (elseRange, some elseTyp) := vt.head? | return some .unknown
   if ← canBeCastedTo thenTyp elseTyp then
     return some thenTyp
+  else if ← canBeCastedTo elseTyp thenTyp then
+    return some thenTyp
+  else if let some commonTyp ← withSM (fun sm => sm.commonTyp thenTyp elseTyp) then
+    return some commonTyp
   else
     error elseRange s!"inconsistent types {thenTyp} and {elseTyp} for !if"
     return some .unknown
@@ -312,11 +316,16 @@ def xListConcat (r : Rec) (node : PTree) : IxM (Option Ty) := do
   if !list1Type.isList then
     error list1Range s!"expected list, found {list1Type}"
     return some .unknown
+  let mut listType := list1Type
   for (range, typ) in vt.tail do
     let some typ := typ | continue
-    if !(← canBeCastedTo typ list1Type) then
-      error range s!"expected {list1Type}, found {typ}"
-  return some list1Type
+    if ← canBeCastedTo typ listType then continue
+    -- lists of different records make a list of their class
+    let cur := listType
+    match ← withSM (fun sm => sm.commonTyp cur typ) with
+    | some commonTyp => listType := commonTyp
+    | none => error range s!"expected {listType}, found {typ}"
+  return some listType
 
 def xListFlatten (r : Rec) (node : PTree) : IxM (Option Ty) := do
   unexpectTypeAnnotation node
